@@ -441,6 +441,34 @@ M("C20", "volume-signed-triple-product", "iodata/utils.py", r"return abs\(np\.li
 T("C20", "volume-abs-triple-product", "iodata/utils.py", r"return abs\(np\.linalg\.det\(cellvecs\)\)", "return abs(np.dot(cellvecs[0], np.cross(cellvecs[1], cellvecs[2])))")
 M("C20", "volume-area-from-dot", "iodata/utils.py", r"np\.linalg\.norm\(np\.cross\(cellvecs\[0\], cellvecs\[1\]\)\)", "abs(np.dot(cellvecs[0], cellvecs[1]))", "C20-R3")
 
+# ----------------------------------------------------------------------------- additions (sixth round, batch 7)
+_VOLX = r"        return abs\(np\.linalg\.det\(cellvecs\)\)"
+M("C20", "volume-orthogonal-shortcut-first-superdiagonal", "iodata/utils.py", _VOLX, "        gram = np.dot(cellvecs, cellvecs.T)\n        if not np.diagonal(gram, offset=1).any():\n            return np.sqrt(np.diagonal(gram).prod())\n        return abs(np.linalg.det(cellvecs))", "C20-R3")
+T("C20", "volume-orthogonal-shortcut-all-offdiagonals", "iodata/utils.py", _VOLX, "        gram = np.dot(cellvecs, cellvecs.T)\n        if not (gram - np.diag(np.diagonal(gram))).any():\n            return np.sqrt(np.diagonal(gram).prod())\n        return abs(np.linalg.det(cellvecs))")
+M("C20", "four-index-skips-zero", "iodata/utils.py", r"(def set_four_index_element\([^)]*\):\n(?:    .*\n|\n)*?    \"\"\"\n)", r"\1    if value == 0.0:\n        return\n", "C20-R1")
+M("C11", "charge-getter-truth-test", "iodata/iodata.py", r"        if self\.atcorenums is None or self\.nelec is None:\n            return None\n        return self\.atcorenums\.sum\(\) - self\.nelec", "        if self.atcorenums is None or not self.nelec:\n            return None\n        return self.atcorenums.sum() - self.nelec", "C11-R7")
+M("C11", "charge-setter-rounds", "iodata/iodata.py", r"            self\.nelec = self\.atcorenums\.sum\(\) - charge", "            self.nelec = float(np.round(self.atcorenums.sum() - charge))", "C11-R7")
+M("C12", "occsa-setter-keeps-callers-array", "iodata/orbitals.py", r"            occsa = np\.array\(occsa\)", "            occsa = np.asarray(occsa)", "C12-R4")
+T("C12", "occsa-setter-copies-explicitly", "iodata/orbitals.py", r"            occsa = np\.array\(occsa\)", "            occsa = np.asarray(occsa).copy()")
+M("C13", "pdb-conect-membership-guard", F + "pdb.py", r"                bonds\.append\(\[serials\[serial0\], serials\[serial1\], bond2num\[\"un\"\]\]\)", "                if serial0 in serials and serial1 in serials:\n                    bonds.append([serials[serial0], serials[serial1], bond2num[\"un\"]])", "C13-R12")
+T("C13", "pdb-conect-guard-that-raises", F + "pdb.py", r"                bonds\.append\(\[serials\[serial0\], serials\[serial1\], bond2num\[\"un\"\]\]\)", "                if serial0 in serials and serial1 in serials:\n                    bonds.append([serials[serial0], serials[serial1], bond2num[\"un\"]])\n                else:\n                    raise LoadError(\"CONECT record refers to an unknown atom.\", lit)")
+M("C07", "cube-reads-raw-handle", F + "cube.py", r"            words = next\(lit\)\.split\(\)", "            words = lit.fh.readline().split()", "C07-R11")
+M("C07", "select-by-name-without-feature-test", "iodata/api.py", r"            if any\(fnmatch\(basename, pattern\) for pattern in format_module\.PATTERNS\) and hasattr\(\n                format_module, attrname\n            \):", "            if any(fnmatch(basename, pattern) for pattern in format_module.PATTERNS):", "C07-R12")
+T("C07", "select-explicit-format-early-returns", "iodata/api.py", r"    if fmt in FORMAT_MODULES:\n        format_module = FORMAT_MODULES\[fmt\]\n        if not hasattr\(format_module, attrname\):\n            raise FileFormatError\(f\"Format \{fmt\} does not support feature \{attrname\}\", filename\)\n        return format_module\n    raise FileFormatError\(f\"Unknown file format \{fmt\}\", filename\)", "    if fmt not in FORMAT_MODULES:\n        raise FileFormatError(f\"Unknown file format {fmt}\", filename)\n    format_module = FORMAT_MODULES[fmt]\n    if not hasattr(format_module, attrname):\n        raise FileFormatError(f\"Format {fmt} does not support feature {attrname}\", filename)\n    return format_module")
+M("C02", "fchk-writer-uses-reader-quadrupole-order", F + "fchk.py", r"data\.moments\[\(2, \"c\"\)\]\[\[0, 3, 5, 1, 2, 4\]\]", "data.moments[(2, \"c\")][[0, 3, 4, 1, 5, 2]]", "C02-R23")
+T("C02", "fchk-quadrupole-orders-as-constants", F + "fchk.py", r"data\.moments\[\(2, \"c\"\)\]\[\[0, 3, 5, 1, 2, 4\]\]", "data.moments[(2, \"c\")][QUADRUPOLE_TO_FCHK]", also=[(r"fchk\[\"Quadrupole Moment\"\]\[\[0, 3, 4, 1, 5, 2\]\]", "fchk[\"Quadrupole Moment\"][QUADRUPOLE_FROM_FCHK]"), (r"\n__all__ = ", "\nQUADRUPOLE_FROM_FCHK = [0, 3, 4, 1, 5, 2]\nQUADRUPOLE_TO_FCHK = [0, 3, 5, 1, 2, 4]\n\n__all__ = ")])
+M("C03", "wfx-gradient-rows-in-file-order", F + "wfx.py", r"        result\[\"atgradient\"\]\[index\] = gradient_mix\[:, 1:\]\.astype\(float\)", "        result[\"atgradient\"][: len(gradient_mix)] = gradient_mix[:, 1:].astype(float)", "C03-R6")
+T("C03", "wfx-gradient-rows-by-dictionary", F + "wfx.py", r"        index = \[result\[\"nuclear_names\"\]\.index\(atom\) for atom in gradient_atoms\]", "        positions = {name: i for i, name in enumerate(result[\"nuclear_names\"])}\n        index = [positions[atom] for atom in gradient_atoms]")
+M("C03", "gro-box-scaled-before-offdiagonals", F + "gromacs.py", r"    if len\(words\) == 9:", "    cell *= nanometer\n    if len(words) == 9:", "C03-R13", also=[(r"        cell\[2, 1\] = float\(words\[8\]\)\n    cell \*= nanometer\n", "        cell[2, 1] = float(words[8])\n")])
+M("C01", "molden-mo-reader-swallows-next-header", F + "molden.py", r"        if \"\[\" in line:\n            lit\.back\(line\)\n            break", "        if \"[\" in line:\n            break", "C01-R15")
+M("C02", "xyz-dictionary-column-replaces-dictionary", F + "xyz.py", r"            data\.setdefault\(attrname, \{\}\)\[keyname\] = array", "            data[attrname] = {keyname: array}", "C02-R24")
+T("C02", "xyz-dictionary-column-explicit-create", F + "xyz.py", r"            data\.setdefault\(attrname, \{\}\)\[keyname\] = array", "            if attrname not in data:\n                data[attrname] = {}\n            data[attrname][keyname] = array")
+M("C08", "molekel-guard-exempts-ghosts", F + "molekel.py", r"    if data\.atcorenums is not None and not np\.array_equal\(data\.atcorenums, data\.atnums\):", "    if data.atcorenums is not None and not np.array_equal(data.atcorenums[data.atcorenums != 0], data.atnums[data.atcorenums != 0]):", "C08-R5")
+M("C18", "fchk-charges-in-set-order", F + "fchk.py", r"    if \"mulliken\" in data\.atcharges:\n        _dump_real_arrays\(\"Mulliken Charges\", data\.atcharges\[\"mulliken\"\], f\)\n", "    for key in data.atcharges.keys() & {\"mulliken\"}.union():\n        _dump_real_arrays(\"Mulliken Charges\", data.atcharges[key], f)\n", "C18-R7")
+M("C09", "preflight-funnel-narrowed", "iodata/api.py", r"            data = format_module\.prepare_dump\(data, allow_changes, filename\)\n    except PrepareDumpError:\n        raise\n    except Exception as exc:", "            data = format_module.prepare_dump(data, allow_changes, filename)\n    except PrepareDumpError:\n        raise\n    except (TypeError, ValueError, KeyError, AttributeError) as exc:", "C09-R7")
+M("C13", "mol2-one-try-around-the-record-loop", F + "mol2.py", r"    while True:\n        try:\n            line = next\(lit\)\n        except StopIteration:\n            break\n        if len\(line\) > 1:\n            words = line\.split\(\)\n            if words\[0\] == \"@<TRIPOS>MOLECULE\":", "    while True:\n        try:\n            line = next(lit)\n            if len(line) > 1 and line.split()[0] == \"@<TRIPOS>BOND\":\n                result[\"bonds\"] = _load_helper_bonds(lit, nbonds)\n                continue\n        except StopIteration:\n            break\n        if len(line) > 1:\n            words = line.split()\n            if words[0] == \"@<TRIPOS>MOLECULE\":", "C13-R13")
+M("C06", "segmentation-remembers-last-result", "iodata/convert.py", r"    return attrs\.evolve\(obasis, shells=shells\)", "    result = attrs.evolve(obasis, shells=shells)\n    _LAST[:] = [obasis, keep_sp, result]\n    return result", "C06-R8", also=[(r"(def convert_to_segmented\([^)]*\)[^\n]*:\n(?:    .*\n|\n)*?    \"\"\"\n)", r"\1    if _LAST and _LAST[0] is obasis and _LAST[1] == keep_sp:\n        return _LAST[2]\n"), (r"\ndef convert_to_segmented", "\n_LAST = []\n\n\ndef convert_to_segmented")])
+
 
 def _run_one(args):
     spec, repo = args
